@@ -387,23 +387,32 @@ inductive Write where
 
 structure AVariant where
   forwardToBackend : Bool   -- Forward payload goes once to the backend server (repaired) | to every client on it
+  checkCurrent     : Bool   -- the carrying player's CURRENT server must be the target (repaired) | the list is trusted
   deriving DecidableEq, Repr
 
-/-- players on a server: usernames of the online players whose connected server is `srv` -/
-def onServer (online : List Player) (srv : Bytes) : List Player :=
-  online.filter fun p => match p.conn with | some c => c.server == srv | none => false
+def repairedA : AVariant := ⟨true, true⟩
+
+/-- players whose connected server is `srv` (the "current server" relation) -/
+def isOn (srv : Bytes) (p : Player) : Bool := match p.conn with | some c => c.server == srv | none => false
+
+/-- The adapter reads TWO relations of the real proxy that agree only in steady states:
+    `listed srv` = the registered server's player list (`RegisteredServer.Players()`), and each player's current
+    server connection (`p.conn`).  During a server switch a player is current on the new server while still listed
+    on the old one.  A Forward may only travel through a LISTED player whose CURRENT server is the target. -/
+def carriers (listed : Bytes → List Player) (srv : Bytes) : List Player := (listed srv).filter (isOn srv)
 
 /-- The adapter's realisation of one effect.  For the repaired Forward the backend connection used is that
-    of the FIRST player `Players().Range` yields (Go map order): `pick` abstracts that choice. -/
-def adapt (av : AVariant) (online : List Player) (pick : List Player → Option Player) : Effect → List Write
+    of the FIRST suitable player `Players().Range` yields (Go map order): `pick` abstracts that choice. -/
+def adapt (av : AVariant) (online : List Player) (listed : Bytes → List Player)
+    (pick : List Player → Option Player) : Effect → List Write
   | .respond c data => [.backendPlugin c.owner (chanOf c.protocol) data]
   | .broadcast srv data =>
     if av.forwardToBackend then
       if data.isEmpty then [] else
-      match pick (onServer online srv) with
+      match pick (if av.checkCurrent then carriers listed srv else (listed srv).filter (·.conn.isSome)) with
       | some p => [.backendPlugin p.name cLegacy data]
       | none => []
-    else (onServer online srv).map fun p => .clientPlugin p.name cLegacy data
+    else (listed srv).map fun p => .clientPlugin p.name cLegacy data
   | .connect p s =>
     match online.find? (·.name == p) with
     | none => []                                   -- `proxy.Player(id)` is nil: nothing
@@ -414,6 +423,6 @@ def adapt (av : AVariant) (online : List Player) (pick : List Player → Option 
   | .kick p _ => [.clientDisconnect p]
   | .msgAll _ => online.map fun p => .clientChat p.name
   | .msgPlayer p _ => [.clientChat p]
-  | .msgServer s _ => (onServer online s).map fun p => .clientChat p.name
+  | .msgServer s _ => (listed s).map fun p => .clientChat p.name
 
 end Gate.C26
